@@ -205,7 +205,7 @@ def pointRows (cols : List (Nat × Nat)) (els : List El) : Option (List Row) :=
   match graces.mapM tokOf, plain.mapM tokOf with
   | some gs, some ps =>
     some ((ordered.map (structRows cols)).flatten
-          ++ gs.map (fun g => cols.map fun c => if c = g.1 then g.2 else dotCell)
+          ++ gs.map (fun g => cols.map (noteCell [g]))
           ++ (if ps = [] then [] else [cols.map (noteCell ps)]))
   | _, _ => none
 
